@@ -281,7 +281,35 @@ impl Prop for C05 {
 		Ok(())
 	}
 
-	fn enumerate(_tier: Tier, shard: usize, nshards: usize, f: &mut dyn FnMut(Case, bool) -> bool) -> Vec<&'static str> {
+	fn enumerate(tier: Tier, shard: usize, nshards: usize, f: &mut dyn FnMut(Case, bool) -> bool) -> Vec<&'static str> {
+		// huge values replacing small ones, small replacing huge, huge replacing huge
+		{
+			let mut gi = 0usize;
+			for n in gen::huge_sizes(tier) {
+				let x = "A".repeat(n);
+				let y = "B".repeat(n / 2 + 7);
+				let inits = ["s://u@h:1/p?q#f".to_string(), format!("s://{x}/{x}?{x}#{x}"), "s:?#".to_string()];
+				let ops = [
+					SetOp::Path(format!("/{x}")), SetOp::Path(format!("/{y}")), SetOp::Path("/p".into()), SetOp::Path(String::new()),
+					SetOp::Query(Some(x.clone())), SetOp::Query(Some(y.clone())), SetOp::Query(Some("r".into())), SetOp::Query(None),
+					SetOp::Fragment(Some(x.clone())), SetOp::Fragment(Some("r".into())), SetOp::Fragment(None),
+					SetOp::Authority(Some(x.clone())), SetOp::Authority(Some(format!("{y}@{x}:{}", "1".repeat(n / 3)))), SetOp::Authority(Some("g".into())), SetOp::Authority(None),
+					SetOp::Scheme(Some("x".into())),
+				];
+				for initial in &inits {
+					for op in &ops {
+						gi += 1;
+						if gi % nshards != shard {
+							continue;
+						}
+						let fam = if gi % 2 == 0 { Fam::Uri } else { Fam::Iri };
+						if !f(Case { fam, full: gi % 3 == 0, initial: initial.clone(), op: op.clone() }, true) {
+							return vec![];
+						}
+					}
+				}
+			}
+		}
 		// small complete product: every presence/emptiness combination x path forms x every setter x small value sets
 		let schemes: [Option<&str>; 2] = [None, Some("s")];
 		let auths: [Option<&str>; 4] = [None, Some(""), Some("h"), Some("u@h:1")];
@@ -332,7 +360,7 @@ impl Prop for C05 {
 				}
 			}
 		}
-		vec!["2 schemes x 4 authorities x 10 path forms x 3 queries x 3 fragments x 29 setter calls x {reference, full}"]
+		vec!["huge values (1 MiB+3, 2 MiB; thorough: 64 KiB+1 .. 8 MiB+1): small<->huge and huge<->huge replacement through every setter", "2 schemes x 4 authorities x 10 path forms x 3 queries x 3 fragments x 29 setter calls x {reference, full}"]
 	}
 
 	fn floors(_tier: Tier) -> Vec<(&'static str, u64)> {
